@@ -491,6 +491,40 @@ pub fn judge_session(
             if terminal_gos > 0 && completed && bms.len() > expecting.len() {
                 v.push(Violation::new("C04", "terminal-reports-nothing", "uci", format!("{} bestmove lines although only {} `go` commands were on positions with a legal move", bms.len(), expecting.len())));
             }
+            // "answered when the depth limit is reached": a search given `depth d` that goes on to
+            // report a completed iteration deeper than d did not answer at its depth limit (it is
+            // running on its time limit instead). Only lines in the window that belongs to this
+            // search beyond doubt are read: after the handler of its `go` returned (the previous
+            // search and its writer are joined by then) and before the next `go` is delivered.
+            for (gi, g) in gos.iter().enumerate() {
+                let d = match g.depth {
+                    Some(d) if d >= 1 => d,
+                    _ => continue,
+                };
+                let from = handler_end(g.line_no);
+                let to = gos.get(gi + 1).map(|n| n.at).unwrap_or(log.len());
+                stats.eval("C07:stays-within-depth-limit");
+                for i in from..to.min(log.len()) {
+                    if let Event::Out { stream: 0, line, .. } = &log[i] {
+                        if !line.starts_with("info time") {
+                            continue;
+                        }
+                        let toks: Vec<&str> = line.split_ascii_whitespace().collect();
+                        let reported = toks.iter().position(|t| *t == "depth").and_then(|k| toks.get(k + 1)).and_then(|t| t.parse::<u32>().ok());
+                        if let Some(r) = reported {
+                            if r > d {
+                                v.push(Violation::new(
+                                    "C07",
+                                    "answer-at-depth-limit",
+                                    "searched-deeper",
+                                    format!("`{}` at line {}: the search completed iteration {} (`{}`) instead of answering when depth {} was reached", lines[g.line_no], g.line_no, r, line, d),
+                                ));
+                                break;
+                            }
+                        }
+                    }
+                }
+            }
             // liveness at quiescence markers: depth reached / time up
             for (i, e) in log.iter().enumerate() {
                 if !matches!(e, Event::Note { text } if text == "settled") {
